@@ -179,9 +179,12 @@ def handle : List String → Verdict
     | some script =>
       let want := markerFlags (Bytes.ofString "{{ v }}") script
       let got := if flagsS == "-" then [] else flagsS.toList.map (· == '1')
+      let feats := scriptFeatures (Bytes.ofString "{{ v }}") script
       { predfail := if want == got then none else
-          some s!"parser's in-string-literal flags {got} differ from the JS lexer's {want}",
-        nontrivial := want.any id, tags := ["quote"], sig := "quote" }
+          some s!"parser's in-string-literal flags {got} differ from the JS lexer's {want} (constructs in the script: {feats})",
+        nontrivial := want.any id, tags := ["quote"] ++ feats.map ("quote:" ++ ·),
+        -- a disagreement in a script that contains a construct the parser does not track is the known limitation
+        sig := "quote" ++ (if want != got && !feats.isEmpty then ";untracked-construct" else "") }
     | none => .badOp
   | ["pos", name, sH, docH] =>
     match hexField sH, hexField docH with
@@ -209,7 +212,7 @@ def handle : List String → Verdict
              match lexJsonString body with
              | .ok v rest => if v == wantRunes s && rest == scriptSuffix then none else some "bare JSON string value/rest differ"
              | r => some (showResult r)) <|> (if scriptShape && noComment then none else some "script element broken")
-        else if name == "onclick" || name == "jsfunc-on" || name == "jsfunc-name-on" then
+        else if name == "onclick" || name == "jsfunc-on" || name == "jsfunc-name-on" || name == "jsfunc-on-after-expr" then
           -- one button start tag with exactly one onclick attribute; (other tokens: optional script definition)
           let buttons := toks.filter fun t => match t with | .startTag [98, 117, 116, 116, 111, 110] _ _ => true | _ => false
           (match buttons with
@@ -224,7 +227,12 @@ def handle : List String → Verdict
             | .startTag [115, 99, 114, 105, 112, 116] _ false :: .text _ :: .endTag [115, 99, 114, 105, 112, 116] :: rest => scripts rest
             | .startTag [115, 99, 114, 105, 112, 116] _ false :: .endTag [115, 99, 114, 105, 112, 116] :: rest => scripts rest
             | _ => false
-          if scripts toks && noComment then none else some "document is not a sequence of intact script elements"
+          if !(scripts toks && noComment) then some "document is not a sequence of intact script elements"
+          -- an inline call with a Go string argument: the argument is in the script as its JSON encoding (data), whatever
+          -- was rendered before
+          else if (name == "jsfunc-inline" || name == "jsfunc-inline-after-expr") && !Bytes.hasInfix (jsonString s) doc then
+            some "the string argument of the inline call is not in the script as its JSON encoding"
+          else none
       { predfail := fail, nontrivial := true, tags := ["pos:" ++ name], sig := "pos;" ++ name }
     | _, _ => .badOp
   | _ => .badOp
